@@ -270,7 +270,7 @@ class EvoWorklist(BaseWorklist):
                 stacklevel=2,
             )
             wash_scheme = "reuse"
-        if not self.diti_mode and not wash_scheme in ("flush", "reuse"):
+        if not wash_scheme in ("flush", "reuse"):
             # refuse an invalid scheme before the first pair is written
             if not isinstance(wash_scheme, int) or isinstance(wash_scheme, bool) or not wash_scheme in {1, 2, 3, 4}:
                 raise ValueError("wash_scheme must be either 1, 2, 3, 4, 'flush' or 'reuse'")
